@@ -15,9 +15,46 @@
 package table
 
 import (
+	"errors"
+
 	"github.com/RoaringBitmap/roaring/roaring64"
+	"github.com/olric-data/olric/internal/kvstore/entry"
 	"github.com/vmihailenco/msgpack/v5"
 )
+
+// ErrCorruptPack means that an encoded table is inconsistent with itself.
+var ErrCorruptPack = errors.New("corrupt table pack")
+
+// validate checks that every offset of the pack points to an entry that lies
+// inside the used part of the memory area. Entries are decoded in place, so
+// an offset that fails this check makes a later read slice out of bounds.
+func (p *Pack) validate(offsetIndex *roaring64.Bitmap) error {
+	if p.Offset > p.Allocated || uint64(len(p.Memory)) > p.Offset {
+		return ErrCorruptPack
+	}
+	used := p.Memory
+	check := func(offset uint64) error {
+		if offset >= uint64(len(used)) {
+			return ErrCorruptPack
+		}
+		if _, err := entry.EncodedSize(used[offset:]); err != nil {
+			return ErrCorruptPack
+		}
+		return nil
+	}
+	for _, offset := range p.HKeys {
+		if err := check(offset); err != nil {
+			return err
+		}
+	}
+	it := offsetIndex.Iterator()
+	for it.HasNext() {
+		if err := check(it.Next()); err != nil {
+			return err
+		}
+	}
+	return nil
+}
 
 type Pack struct {
 	Offset      uint64
@@ -62,6 +99,10 @@ func Decode(data []byte) (*Table, error) {
 	rb := roaring64.New()
 	err = rb.UnmarshalBinary(p.OffsetIndex)
 	if err != nil {
+		return nil, err
+	}
+
+	if err = p.validate(rb); err != nil {
 		return nil, err
 	}
 
